@@ -52,6 +52,20 @@ POSITIONS = [
     "inside-eager-tag-in-section",
     "inside-lazy-tag-in-pipeline",
     "inside-eager-tag-in-pipeline",
+    # the tagged node is a *key*
+    "key-in-section-mapping",
+    "key-in-type-mapping",
+    "key-in-lazy-tag-mapping-in-pipeline",
+    "key-in-eager-tag-mapping-in-pipeline",
+    "key-in-eager-tag-mapping-in-section",
+    "key-in-lazy-tag-nested-in-tag",
+    # the tagged node is the last argument of the sequence form of a registered tag
+    "last-in-lazy-tag-sequence-in-pipeline",
+    "last-in-eager-tag-sequence-in-pipeline",
+    "last-in-eager-tag-sequence-in-section",
+    "last-in-lazy-tag-sequence-nested-in-tag",
+    # ... and of a registered tag in mapping form, after other items
+    "last-value-in-lazy-tag-mapping-in-section",
 ]
 #: second tags of the two-tag documents (thorough): one per kind, aimed at the canaries
 INNER_TAGS = [
@@ -152,6 +166,8 @@ def control_node(position, shape):
         return None
     if position == "top-level-key":
         return yt.scalar("__config_test")
+    if position.startswith("key-in-"):
+        return yt.scalar("kk")      # a key of keyword arguments has to be a plain string
     if shape == "empty":
         return yt.scalar("", tag=registered)
     if shape == "text":
@@ -190,6 +206,33 @@ def build_document(position, node):
         tag = "!VDeco1L" if "lazy" in position else "!VDeco1E"
         pipeline = [yt.mapping([("k", yt.mapping([("deep", yt.seq([node]))]))], tag=tag),
                     pool]
+    elif position == "key-in-section-mapping":
+        section = yt.mapping([("a", yt.mapping([("b", yt.py(1)), (node, yt.py(2))]))])
+    elif position == "key-in-type-mapping":
+        pipeline = [yt.mapping([("__type__", yt.scalar("verif_plugins.VDeco1L")),
+                                ("k", yt.py(1)), (node, yt.py(2))]), pool]
+    elif position in ("key-in-lazy-tag-mapping-in-pipeline",
+                      "key-in-eager-tag-mapping-in-pipeline"):
+        tag = "!VDeco1L" if "lazy" in position else "!VDeco1E"
+        pipeline = [yt.mapping([("k", yt.py(1)), (node, yt.py(2))], tag=tag), pool]
+    elif position == "key-in-eager-tag-mapping-in-section":
+        section = yt.mapping([("a", yt.mapping([("k", yt.py(1)), (node, yt.py(2))],
+                                               tag="!VItemE"))])
+    elif position == "key-in-lazy-tag-nested-in-tag":
+        inner = yt.mapping([("k", yt.py(1)), (node, yt.py(2))], tag="!VItemL", flow=True)
+        pipeline = [yt.mapping([("k", inner)], tag="!VDeco1E"), pool]
+    elif position in ("last-in-lazy-tag-sequence-in-pipeline",
+                      "last-in-eager-tag-sequence-in-pipeline"):
+        tag = "!VDeco1L" if "lazy" in position else "!VDeco1E"
+        pipeline = [yt.seq([yt.py(1), yt.py("two"), node], tag=tag), pool]
+    elif position == "last-in-eager-tag-sequence-in-section":
+        section = yt.mapping([("a", yt.seq([yt.py(1), node], tag="!VItemE"))])
+    elif position == "last-in-lazy-tag-sequence-nested-in-tag":
+        inner = yt.seq([yt.py(1), node], tag="!VItemL")
+        pipeline = [yt.seq([inner], tag="!VDeco1L"), pool]
+    elif position == "last-value-in-lazy-tag-mapping-in-section":
+        section = yt.mapping([("a", yt.mapping([("k", yt.py(1)), ("z", node)],
+                                               tag="!VItemL"))])
     else:
         raise ValueError(position)
     top = [("pipeline", yt.seq(pipeline))]
